@@ -10,9 +10,17 @@ macro_rules! jobj {
 pub mod common;
 pub mod models;
 
+mod mon_c01;
 mod mon_c02;
+mod mon_c03;
+mod mon_c04;
+mod mon_c05;
+mod mon_c07;
 mod mon_c09;
 mod mon_c10;
+mod mon_c13;
+mod mon_c14;
+mod mon_c18;
 mod mon_c19;
 mod mon_c20;
 
@@ -24,9 +32,17 @@ fn main() {
     common::out::init(&args.monitor);
     match args.monitor.as_str() {
         "noop" => {}
+        "c01" => mon_c01::run(&args),
         "c02" => mon_c02::run(&args),
+        "c03" => mon_c03::run(&args),
+        "c04" => mon_c04::run(&args),
+        "c05" => mon_c05::run(&args),
+        "c07" => mon_c07::run(&args),
         "c09" => mon_c09::run(&args),
         "c10" => mon_c10::run(&args),
+        "c13" => mon_c13::run(&args),
+        "c14" => mon_c14::run(&args),
+        "c18" => mon_c18::run(&args),
         "c19" => mon_c19::run(&args),
         "c20" => mon_c20::run(&args),
         other => {
